@@ -14,7 +14,7 @@ def sh(cmd, cwd=None, timeout=3600):
 
 
 def confirm(pid, m):
-    wt = f"/tmp/mut10/{pid}"
+    wt = f"/tmp/mut11/{pid}"
     md = f"{wt}/MUTANT/{m}"
     out = {"suite_passes_with_change": None, "demo_fails_with_change": None, "demo_passes_without": None}
     sh("git checkout -- src && rm -f tests/zz_demo.rs", wt)
@@ -39,7 +39,7 @@ def keep(pid, m, conf):
     sid = f"{pid}_{m}"
     d = os.path.join(VERIF, "seeded", sid)
     os.makedirs(d, exist_ok=True)
-    md = f"/tmp/mut10/{pid}/MUTANT/{m}"
+    md = f"/tmp/mut11/{pid}/MUTANT/{m}"
     shutil.copy(f"{md}/patch.diff", d)
     shutil.copy(f"{md}/demo.rs", d)
     readme = open(f"{md}/README.md").read() if os.path.exists(f"{md}/README.md") else ""
